@@ -144,7 +144,10 @@ def build(pym, cfg):
     # "void" variant (T1 without filters): some designs have a 2x2 patch of exactly-zero elements, so the node in its middle is
     # decoupled in that design (grounded by a small constant diagonal) and coupled again in the next one
     void = bool(cfg.get("void")) and t == "T1" and cfg["filt"] == "none" and not cfg["overhang"] and dom.dim == 2 \
-        and not cfg["solver"].startswith("dense")
+        and not cfg["solver"].startswith("dense") and nel > 4
+    # (nel > 4: on a 2x2 mesh the patch is the whole design, K would be *diagonal* and LinSolve -- which chooses its solver from the
+    # first matrix it sees, by design -- would keep SolverDiagonal for the general matrices that follow: the matrix class of a
+    # LinSolve instance is fixed, see DESIGN 10.4 "non-generic first matrix")
 
     def xset(seed):
         v = sub_rng(0x301, seed).uniform(0.3, 1.0, nel)
